@@ -3,9 +3,12 @@
    what the code did (produced/refused or the iteration's result class, blob heights of every DA call, store
    height, both in-memory and both recorded watermarks after the item); at the end the emptiness of every
    committed block and the heights the DA double accepted, in order.  [mismatches] lists the cases on which
-   the model disagrees. *)
+   the model disagrees.
+   Histories are lists of ThrottleConc.xitem: the atomic items of Model/Throttle.v (XI i) and production attempts
+   with submission iterations inside (XProduceI q ne); for the latter the harness also reports, per interleaved
+   iteration in execution order, its result class and the blob heights of its DA calls. *)
 From Coq Require Import NArith List Bool.
-From Verif Require Import Model.Throttle.
+From Verif Require Import Model.Throttle Model.ThrottleConc.
 Import ListNotations.
 Open Scope N_scope.
 
@@ -21,27 +24,33 @@ Definition obs_eqb (a b : obs) : bool :=
   (o_height a =? o_height b) && (o_wh a =? o_wh b) && (o_wd a =? o_wd b) &&
   (o_ph a =? o_ph b) && (o_pd a =? o_pd b).
 
+Definition subobs_eqb (a b : subobs) : bool :=
+  (fst a =? fst b) && list_eqb (list_eqb N.eqb) (snd a) (snd b).
+Definition xobs_eqb (a b : xobs) : bool := obs_eqb (fst a) (fst b) && list_eqb subobs_eqb (snd a) (snd b).
+(* observation of an atomic item *)
+Definition xo (o : obs) : xobs := (o, []).
+
 Record tcase := {
   tc_init : N; tc_limit : N;
-  tc_hist : list item;
-  tc_outs : list obs;          (* observed on the real code, per item *)
+  tc_hist : list xitem;
+  tc_outs : list xobs;         (* observed on the real code, per item *)
   tc_chain : list bool;        (* observed: has transactions, from the initial height on *)
   tc_hacc : list N;            (* header heights the DA double accepted, in order *)
   tc_dacc : list N             (* data heights the DA double accepted, in order *)
 }.
 
 (* index (from 1) of the first differing item, 0 = none *)
-Fixpoint first_diff (i : N) (a b : list obs) : N :=
+Fixpoint first_diff (i : N) (a b : list xobs) : N :=
   match a, b with
   | [], [] => 0
-  | x :: a', y :: b' => if obs_eqb x y then first_diff (i + 1) a' b' else i
+  | x :: a', y :: b' => if xobs_eqb x y then first_diff (i + 1) a' b' else i
   | _, _ => i
   end.
 
 (* 1000+i = item i (from 1) differs; 2 = block emptiness; 3 = accepted headers; 4 = accepted data *)
 Definition check_case (c : tcase) : list N :=
   let cf := mk_cfg (tc_init c) (tc_limit c) in
-  let '(s, outs) := run cf (tc_hist c) in
+  let '(s, outs) := xrun cf (tc_hist c) in
   (match first_diff 1 outs (tc_outs c) with 0 => [] | i => [1000 + i] end) ++
   (if list_eqb Bool.eqb (map (nonempty s) (committed cf s)) (tc_chain c) then [] else [2]) ++
   (if list_eqb N.eqb (t_dah s) (tc_hacc c) then [] else [3]) ++
